@@ -142,7 +142,19 @@ def gen_inputs(seed, n, files):
                 s = EG.Synth(rng, exotic=rng.random() < 0.3)
                 b, want = s.image, "Elf"
             elif kind == "pe":
-                b, want = FG.SynthPE(rng).image, "PE"
+                spe = FG.SynthPE(rng, imports=rng.random() < 0.6)
+                b, want = spe.image, "PE"
+                if spe.import_fields and rng.random() < 0.6:
+                    # an RVA-valued field of the import tables set to a value outside the image / inside the headers / odd
+                    m = bytearray(b)
+                    soi = spe.opt["SizeOfImage"]
+                    for _ in range(rng.choice([1, 1, 2])):
+                        off, w, what = rng.choice(spe.import_fields)
+                        v = rng.choice([0, 1, 0x10, soi - 1, soi, soi + 0x1090, 0xF01090, 0x7FFFFFFF, 0xFFFFFFFF, spe.sections[-1]["RVA"] + spe.sections[-1]["VirtualSize"] - 1,
+                                        rng.getrandbits(32), rng.getrandbits(20)])
+                        m[off:off + w] = (v & ((1 << (8 * w)) - 1)).to_bytes(w, "little")
+                    yield "corrupt-import:pe", bytes(m), None
+                    continue
             elif kind == "macho":
                 b, want = FG.SynthMachO(rng).image, "MachO"
             elif kind == "hex":
